@@ -751,6 +751,52 @@ __CPROVER_decreases(GV_MAX((long)(self->N0) + 1 - jj, 0))
 GV_PERM_RANGE(jj);
 //@ end
 
+/* (5)/(6) one step of the Gram-Schmidt orthogonalisation of G (regularisation): g_perm keeps naming columns of G; BadRegularization is raised
+   only after `x = x0` and `is_solved = true` (P7, block level) */
+//@ contract AdjCholDec_blk_gs_step
+__CPROVER_requires(gv_exc == 0 && !self->is_solved && BLK_AFTER_PIVOT(self) && self->nullity >= 1 && N1 == self->nullity + 1)
+__CPROVER_requires(1 <= column && column <= self->nullity && self->G.rows == self->N && self->G.cols == N1)
+__CPROVER_requires(g_perm.dim == N1 && __CPROVER_rw_ok(g_perm.p, (size_t)N1 * sizeof(Index)) && GP_AT(gv_q0))
+__CPROVER_requires(CH_HEAP_OK(self) && MINX_AT(self, self->N, gv_m0))
+__CPROVER_assigns(gv_payload, __CPROVER_object_whole(g_perm.p), self->x, self->is_solved, gv_exc)
+__CPROVER_ensures(gv_exc == 0 || gv_exc == GV_BadRegularization)
+__CPROVER_ensures(GP_AT(gv_q0))
+__CPROVER_ensures(gv_exc == GV_BadRegularization ==> (self->is_solved && self->x.dim == self->x0.dim))
+__CPROVER_ensures(gv_exc == 0 ==> !self->is_solved)
+//@ entry AdjCholDec_blk_gs_step
+GV_CANARY("AdjCholDec_blk_gs_step entry");
+GV_GP_INST(column);
+//@ loop AdjCholDec_blk_gs_step 1
+__CPROVER_assigns(i, gv_payload, pivot, ipvt)
+__CPROVER_loop_invariant(column + 1 <= i && i <= self->nullity + 1 && (ipvt == 0 || (column < ipvt && ipvt < i)))
+__CPROVER_decreases((long)self->nullity + 1 - i)
+//@ head AdjCholDec_blk_gs_step 1
+GV_GP_INST(i);
+//@ post AdjCholDec_blk_gs_step 1
+if (ipvt) GV_GP_INST(ipvt);
+//@ loop AdjCholDec_blk_gs_step 2
+__CPROVER_assigns(i, gv_payload)
+__CPROVER_loop_invariant((1) <= i && (i <= (self->N) + 1 || i == (1)))
+__CPROVER_decreases(GV_MAX((long)(self->N) + 1 - i, 0))
+//@ loop AdjCholDec_blk_gs_step 3
+__CPROVER_assigns(col, gv_payload)
+__CPROVER_loop_invariant((column+1) <= col && (col <= (N1) + 1 || col == (column+1)))
+__CPROVER_decreases(GV_MAX((long)(N1) + 1 - col, 0))
+//@ head AdjCholDec_blk_gs_step 3
+GV_GP_INST(col);
+//@ loop AdjCholDec_blk_gs_step 4
+__CPROVER_assigns(i, gv_payload)
+__CPROVER_loop_invariant((1) <= i && (i <= (self->N) + 1 || i == (1)))
+__CPROVER_decreases(GV_MAX((long)(self->N) + 1 - i, 0))
+//@ end
+
+//@ contract AdjCholDec_blk_G_x0
+__CPROVER_requires(BLK_AFTER_PIVOT(self) && 1 <= i && i <= self->N && N1 == self->nullity + 1 && self->G.rows == self->N && self->G.cols == N1)
+__CPROVER_assigns(gv_payload)
+//@ entry AdjCholDec_blk_G_x0
+GV_CANARY("AdjCholDec_blk_G_x0 entry");
+//@ end
+
 //@ harness
 static struct Mat gv_the_A;
 static struct Vec gv_the_b;
@@ -848,6 +894,24 @@ void h_blk_G_fill(void)    { struct AdjCholDec S; mk_blk_after_pivot(&S); Index 
 void h_blk_G_identity(void){ struct AdjCholDec S; mk_blk_after_pivot(&S); Index i, j; AdjCholDec_blk_G_identity(&S, i, j); GV_CANARY("h_blk_G_identity end"); }
 void h_blk_G_backward(void){ struct AdjCholDec S; mk_blk_after_pivot(&S); Index c, ii; AdjCholDec_blk_G_backward(&S, c, ii); GV_CANARY("h_blk_G_backward end"); }
 
+void h_blk_G_x0(void)      { struct AdjCholDec S; mk_blk_after_pivot(&S); Index i, n1; AdjCholDec_blk_G_x0(&S, i, n1); GV_CANARY("h_blk_G_x0 end"); }
+void h_blk_gs_step(void)
+{
+  struct AdjCholDec S; mk_blk_after_pivot(&S);
+  Index column, N1, q0, m0, nl;
+  _Bool nolist;
+  __CPROVER_assume(1 <= N1 && N1 <= MAXDIM + 1 && 0 <= nl && nl <= MAXDIM);
+  struct VecI g_perm;
+  g_perm.dim = N1; g_perm.p = malloc((size_t)N1 * sizeof(Index));
+  S.minx_n = nolist ? 0 : nl;
+  S.minx_i = nolist ? NULL : malloc((size_t)nl * sizeof(Index));
+  __CPROVER_assume(g_perm.p != NULL && (nolist || S.minx_i != NULL));
+  gv_q0 = q0; gv_m0 = m0;
+  __CPROVER_assume(GP_AT(gv_q0) && MINX_AT(&S, S.N, gv_m0) && (S.minx_t == ALL || S.minx_t == SUBSET));
+  AdjCholDec_blk_gs_step(&S, column, g_perm, N1);
+  GV_CANARY("h_blk_gs_step end");
+}
+
 #ifdef GV_BOUNDED
 /* bounded whole-function check: solve() on an arbitrary opaque payload with N <= GV_BN unknowns, then lindep(n) for EVERY n; the flagged
    unknowns are COUNTED (the pigeonhole step of P6) and perm / invp are compared element by element */
@@ -866,7 +930,8 @@ void h_bounded_count(void)
   AdjCholDec_solve(&S);
   __CPROVER_assert(gv_exc == 0 || gv_exc == GV_BadRegularization, "bounded: only BadRegularization may be raised");
   __CPROVER_assert(S.is_solved && S.N == n && 0 <= S.nullity && S.nullity <= n && S.N0 == n - S.nullity, "bounded: flags consistent after solve(), also after BadRegularization");
-  Index seen = 0, flagged = 0;
+  if (!S.is_solved) return;   /* reported by the assertion above; lindep() on an unsolved object would run the whole solve() again per call */
+  Index flagged = 0;
   for (Index k = 1; k <= n; k++) {
     Index v = S.perm.p[k - 1];
     __CPROVER_assert(1 <= v && v <= n && S.invp.p[v - 1] == k, "bounded: perm(k) is an unknown and invp(perm(k)) == k");
